@@ -135,8 +135,18 @@ def check_big_rank(case):
         return BAD("unrank_with_length_big", {"r": r_in, "n": n, "got": list(Q)})
     if Q.rank() != sum(math.factorial(k) for k in range(n)) + r_in:
         return BAD("rank_big_with_length", {"perm": list(Q)})
+    # the canonical order is one order: every comparison operator agrees with the ranks, also
+    # across lengths (P and Q usually differ in length)
+    rq = sum(math.factorial(k) for k in range(n)) + r_in
+    for X, Y, rx, ry in ((P, Q, r, rq), (Q, P, rq, r), (P, Perm(tuple(P)), r, r)):
+        got = [X < Y, X <= Y, X > Y, X >= Y, X == Y, X != Y]
+        want = [rx < ry, rx <= ry, rx > ry, rx >= ry, rx == ry, rx != ry]
+        if got != want:
+            return BAD("operators_vs_rank", {"X": list(X), "Y": list(Y), "got": got, "want": want})
+    if sorted([Q, P]) != sorted([P, Q]) or sorted([P, Q])[0] != (P if r <= rq else Q):
+        return BAD("sorted_vs_rank", {"P": list(P), "Q": list(Q)})
     boundary = r_in in (0, math.factorial(n) - 1) or ref.rank_in_length(tuple(P)) in (0, math.factorial(len(P)) - 1)
-    return OK(True, "boundary_rank" if boundary else "inner_rank")
+    return OK(True, "boundary_rank" if boundary else "inner_rank", "cross_length" if len(P) != len(Q) else "same_length")
 
 
 def _decode_seq(items):
